@@ -479,6 +479,7 @@ let () =
                  (match i, res with
                   | ICsvIn (_, txt), Err c -> "err variant=" ^ csv_err_name (int_of_nat c)
                       ^ (match csv_duplicate_name txt with Some x when int_of_nat c = 1 -> " dup=" ^ (if x = [] then "~" else hex_of_name x) | _ -> "")
+                      ^ (match csv_bad_cell txt with Some x when int_of_nat c = 4 -> " cell=" ^ (if x = [] then "~" else hex_of_name x) | _ -> "")
                   | _ -> status_of res) ^ pyx
                with Bad m -> pool := !pool @ [None]; exact := !exact @ [false]; "bad:" ^ m
                   | Exit -> pool := !pool @ [None]; exact := !exact @ [false]; "err variant=IOError py.exc=" ^ exc_name exc_of_missing_file
